@@ -1,169 +1,8 @@
-import Proofs.Lemmas.ForkChoiceInv3
-import Proofs.Lemmas.ForkChoiceRefHead
-import Proofs.Lemmas.ForkChoiceRefInsert
-import Proofs.Lemmas.ForkChoiceRefOps
-/-! Simulation of the specification by the code-shaped model on admissible histories: `head_eq_ghost_run`. -/
+import Proofs.Lemmas.ForkChoiceSimBase
+import Proofs.Lemmas.ForkChoiceRefQueries
+/-! Simulation of the specification by the code-shaped model on admissible histories: `refines_run`, `head_eq_ghost_run`. -/
 namespace Zrnt.ForkChoice
 open Spec FC
-
-/-- the operations whose answers C09 is about -/
-def IsHeadOp : Op → Bool
-  | .head => true
-  | .findHead _ _ => true
-  | _ => false
-
-/-- the operations whose answers are proved equal to the specification's on admissible histories: insertions,
-votes, checkpoint updates, pin, heads, `GetSlot`, `InSubtree` and the checkpoint/pin getters -/
-def Refined : Op → Bool
-  | .slot .. => true
-  | .block .. => true
-  | .att .. => true
-  | .justify .. => true
-  | .pin .. => true
-  | .head => true
-  | .findHead .. => true
-  | .getSlot _ => true
-  | .inSub .. => true
-  | .just => true
-  | .fin => true
-  | .pinq => true
-  | _ => false
-
-theorem refined_of_head {op : Op} (h : IsHeadOp op = true) : Refined op = true := by
-  cases op <;> simp_all [IsHeadOp, Refined]
-
-theorem ref_held {fc : FC} {a : Abs} (r : Ref fc a) (b : Bool) : Ref { fc with held := b } a :=
-  { spe := r.spe, nodes := r.nodes, votes := r.votes, balances := r.balances, justified := r.justified,
-    finalized := r.finalized, pin := r.pin, sink := r.sink, clean := r.clean, jE := r.jE, fE := r.fE,
-    fresh := r.fresh, next_in := r.next_in, cur_le := r.cur_le, settled := r.settled }
-
-theorem fi_held {fc : FC} (I : FI fc) (b : Bool) : FI { fc with held := b } := I
-
-/-- `findHead` on an array whose connections are stale equals `findHead` on the refreshed array -/
-theorem findHead_refresh (pr : PA) (h : WF pr) (hu : pr.updated = false) (root : Root) (slot : Nat) :
-    pr.findHead root slot = (pr.updateConnections).1.findHead root slot := by
-  obtain ⟨pr1, h1, _, hu1, _⟩ := wf_updateConnections pr h
-  rw [findHead_eq pr, findHead_eq (pr.updateConnections).1, h1]
-  simp [hu, hu1]
-
-/-- head from any start node: the model's `findHead` on a settled, invariant-satisfying state answers as the
-specification's GHOST walk, and the state it leaves is still related -/
-theorem findHead_sim (fc : FC) (a : Abs) (I : FI fc) (hl : LI fc.pa) (r : Ref fc a)
-    (hset : ∀ v ∈ fc.votes, v.cur = v.next) (root : Root) (slot : Nat) :
-    match fc.pa.findHead root slot with
-    | .ok s ref => Ref { fc with pa := s } a ∧ a.headFrom ⟨slot, root⟩ = some ref
-    | .err s => Ref { fc with pa := s } a ∧ a.headFrom ⟨slot, root⟩ = none
-    | _ => False := by
-  have hsd := sibDistinct_of_chain fc.pa I.wf I.chain
-  by_cases hu : fc.pa.updated = true
-  · obtain ⟨hlk, _⟩ := hl hu
-    have he := headFrom_eq_findHead I.wf r I.nz hset I.w hlk hsd hu root slot
-    rcases findHead_state fc.pa hu root slot with ⟨ref, e⟩ | e
-    · rw [e] at he ⊢; exact ⟨r, he⟩
-    · rw [e] at he ⊢; exact ⟨r, he⟩
-  · have hu' : fc.pa.updated = false := by simpa using hu
-    obtain ⟨pr1, h1, hw1, hu1, hf1⟩ := wf_updateConnections fc.pa I.wf
-    have e1 : (fc.pa.updateConnections).1 = pr1 := by rw [h1]
-    rw [findHead_refresh fc.pa I.wf hu', e1]
-    have r1 : Ref { fc with pa := pr1 } a := ref_frame fc a r pr1 hf1
-    have I1 : FI { fc with pa := pr1 } := PInv.frame I hw1 hf1
-    have hlk := (linksOK_updateConnections fc.pa I.wf hsd).1
-    rw [e1] at hlk
-    have he := headFrom_eq_findHead (fc := { fc with pa := pr1 }) I1.wf r1 I1.nz hset I1.w hlk
-      (sibDistinct_of_chain pr1 I1.wf I1.chain) hu1 root slot
-    rcases findHead_state pr1 hu1 root slot with ⟨ref, e⟩ | e
-    · rw [e] at he ⊢; exact ⟨r1, he⟩
-    · rw [e] at he ⊢; exact ⟨r1, he⟩
-
-/-- `fc.withLock body` when the mutex is free -/
-theorem withLock_free {α : Type} (fc : FC) (hh : fc.held = false) (body : FC → Out FC α) :
-    fc.withLock body =
-      (match body { fc with held := true } with
-       | .ok s a => .ok { s with held := false } a
-       | .err s => .err { s with held := false }
-       | .panic => .panic
-       | .blocked => .blocked) := by
-  unfold withLock
-  simp only [hh, Bool.false_eq_true, if_false]
-  cases body { fc with held := true } <;> rfl
-
-/-- a query of the form lock; `updateVotesMaybe`; proto-array query: the state stays related -/
-theorem query_sim {α : Type} (fc : FC) (a : Abs) (hh : fc.held = false) (I : FI fc) (r : Ref fc a)
-    (f : PA → POut PA α) (hf : ∀ pr, WF pr → GoodFr pr (f pr)) :
-    match fc.withLock (·.afterVotes f) with
-    | .ok s _ => Ref s a
-    | .err s => Ref s a
-    | _ => False := by
-  rw [withLock_free fc hh]
-  simp only [afterVotes]
-  obtain ⟨fc', e, r', I', _, _⟩ := ref_updateVotesMaybe { fc with held := true } a (fi_held I true) (ref_held r true)
-  rw [e]
-  simp only [liftPA]
-  have hg := hf fc'.pa I'.wf
-  cases hq : f fc'.pa with
-  | ok s x => rw [hq] at hg; exact ref_held (ref_frame fc' a r' s hg.2) false
-  | err s => rw [hq] at hg; exact ref_held (ref_frame fc' a r' s hg.2) false
-  | panic => rw [hq] at hg; exact hg.elim
-  | spin => rw [hq] at hg; exact hg.elim
-
-/-- `FindHead` of the wrapper: related state and the specification's answer -/
-theorem wrapperFindHead_sim (fc : FC) (a : Abs) (hh : fc.held = false) (I : FI fc) (hl : LI fc.pa) (r : Ref fc a)
-    (root : Root) (slot : Nat) :
-    match fc.findHead root slot with
-    | .ok s ref => Ref s a ∧ a.headFrom ⟨slot, root⟩ = some ref
-    | .err s => Ref s a ∧ a.headFrom ⟨slot, root⟩ = none
-    | _ => False := by
-  unfold FC.findHead
-  rw [withLock_free fc hh]
-  simp only [afterVotes]
-  have hl1 := li_updateVotesMaybe { fc with held := true } (fi_held I true) hl
-  obtain ⟨fc', e, r', I', hset, _⟩ := ref_updateVotesMaybe { fc with held := true } a (fi_held I true) (ref_held r true)
-  rw [e] at hl1 ⊢
-  simp only [liftPA]
-  have hs := findHead_sim fc' a I' hl1 r' hset root slot
-  cases hq : fc'.pa.findHead root slot with
-  | ok s x => rw [hq] at hs; exact ⟨ref_held hs.1 false, hs.2⟩
-  | err s => rw [hq] at hs; exact ⟨ref_held hs.1 false, hs.2⟩
-  | panic => rw [hq] at hs; exact hs.elim
-  | spin => rw [hq] at hs; exact hs.elim
-
-/-- `Head` of the wrapper -/
-theorem wrapperHead_sim (fc : FC) (a : Abs) (hh : fc.held = false) (I : FI fc) (hl : LI fc.pa) (r : Ref fc a) :
-    match fc.head with
-    | .ok s ref => Ref s a ∧ a.headFrom a.startNode = some ref
-    | .err s => Ref s a ∧ a.headFrom a.startNode = none
-    | _ => False := by
-  unfold FC.head
-  rw [withLock_free fc hh]
-  have hl1 := li_updateVotesMaybe { fc with held := true } (fi_held I true) hl
-  obtain ⟨fc', e, r', I', hset, _, hpin, hjust, _, hspe, _⟩ :=
-    ref_updateVotesMaybe { fc with held := true } a (fi_held I true) (ref_held r true)
-  rw [e] at hl1 ⊢
-  simp only
-  have hstart : a.startNode = (match fc'.pin with
-      | some p => p
-      | none => ⟨fc'.justified.epoch * fc'.spe, fc'.justified.root⟩) := by
-    unfold Abs.startNode
-    rw [r'.pin, r'.justified, r'.spe]
-    cases fc'.pin <;> rfl
-  rw [hstart]
-  cases hp : fc'.pin with
-  | some p =>
-    simp only [liftPA]
-    have hs := findHead_sim fc' a I' hl1 r' hset p.root p.slot
-    cases hq : fc'.pa.findHead p.root p.slot with
-    | ok s x => rw [hq] at hs; exact ⟨ref_held hs.1 false, hs.2⟩
-    | err s => rw [hq] at hs; exact ⟨ref_held hs.1 false, hs.2⟩
-    | panic => rw [hq] at hs; exact hs.elim
-    | spin => rw [hq] at hs; exact hs.elim
-  | none =>
-    simp only [liftPA]
-    have hs := findHead_sim fc' a I' hl1 r' hset fc'.justified.root (fc'.justified.epoch * fc'.spe)
-    cases hq : fc'.pa.findHead fc'.justified.root (fc'.justified.epoch * fc'.spe) with
-    | ok s x => rw [hq] at hs; exact ⟨ref_held hs.1 false, hs.2⟩
-    | err s => rw [hq] at hs; exact ⟨ref_held hs.1 false, hs.2⟩
-    | panic => rw [hq] at hs; exact hs.elim
-    | spin => rw [hq] at hs; exact hs.elim
 
 theorem relock (fc : FC) (hh : fc.held = false) : ({ ({ fc with held := true } : FC) with held := false } : FC) = fc := by
   cases fc; simp_all
@@ -171,6 +10,32 @@ theorem relock (fc : FC) (hh : fc.held = false) : ({ ({ fc with held := true } :
 theorem relock_pa (fc : FC) (hh : fc.held = false) (X : PA) :
     ({ ({ ({ fc with held := true } : FC) with pa := X } : FC) with held := false } : FC) = { fc with pa := X } := by
   cases fc; simp_all
+
+/-- a wrapper query of the form lock; `updateVotesMaybe`; proto-array query `f`: if `f` answers as the specification
+on every settled related state, so does the wrapper -/
+theorem afterVotes_sim {α : Type} (fc : FC) (a : Abs) (hh : fc.held = false) (I : FI fc) (hl : LI fc.pa) (r : Ref fc a)
+    (f : PA → POut PA α) (g : α → Ans) (specAns : Ans)
+    (hf : ∀ fc' : FC, FI fc' → LI fc'.pa → Ref fc' a → (∀ v ∈ fc'.votes, v.cur = v.next) →
+      match f fc'.pa with
+      | .ok s x => Ref { fc' with pa := s } a ∧ specAns = g x
+      | .err s => Ref { fc' with pa := s } a ∧ specAns = Ans.err
+      | _ => False) :
+    match fc.withLock (·.afterVotes f) with
+    | .ok s x => Ref s a ∧ specAns = g x
+    | .err s => Ref s a ∧ specAns = Ans.err
+    | _ => False := by
+  rw [withLock_free fc hh]
+  simp only [afterVotes]
+  have hl1 := li_updateVotesMaybe { fc with held := true } (fi_held I true) hl
+  obtain ⟨fc', e, r', I', hset, _⟩ := ref_updateVotesMaybe { fc with held := true } a (fi_held I true) (ref_held r true)
+  rw [e] at hl1 ⊢
+  simp only [liftPA]
+  have hs := hf fc' I' hl1 r' hset
+  cases hq : f fc'.pa with
+  | ok s x => rw [hq] at hs; exact ⟨ref_held hs.1 false, hs.2⟩
+  | err s => rw [hq] at hs; exact ⟨ref_held hs.1 false, hs.2⟩
+  | panic => rw [hq] at hs; exact hs.elim
+  | spin => rw [hq] at hs; exact hs.elim
 
 /-- what one step of a live, related pair does: related states again, the specification stays inside its domain,
 and on `head` / `findhead` the two answers are equal -/
@@ -284,17 +149,37 @@ theorem stepLive_sim (fc : FC) (a : Abs) (hh : fc.held = false) (I : FI fc) (hl 
     | err s => exact fun hs => ⟨hs.1, fun _ => by simp [finish, hs.2, Abs.refAns]⟩
     | panic => exact fun hs => hs.elim
     | blocked => exact fun hs => hs.elim
-  | chain rt s => exact ⟨qsim _ _ (fun pr hw => goodFr_canonicalChain pr hw rt s), fun h => by cases h⟩
+  | chain rt s =>
+    have hs := afterVotes_sim fc a hh I hl r (·.canonicalChain rt s) Ans.chain (a.chain rt s)
+      (fun fc' I' hl' r' hset' => by
+        have := chain_refines fc' a I' r' hl' hset' rt s
+        revert this
+        cases fc'.pa.canonicalChain rt s with
+        | ok s x => exact fun h => ⟨h.1, h.2⟩
+        | err s => exact fun h => ⟨h.1, h.2⟩
+        | panic => exact fun h => h
+        | spin => exact fun h => h)
+    show (match (finish (fc.canonicalChain rt s) _).1 with | .live fc' => Ref fc' a | _ => False) ∧
+      (_ → (finish (fc.canonicalChain rt s) Ans.chain).2 = a.chain rt s)
+    unfold FC.canonicalChain
+    revert hs
+    cases fc.withLock (·.afterVotes (·.canonicalChain rt s)) with
+    | ok s x => exact fun hs => ⟨hs.1, fun _ => hs.2.symm⟩
+    | err s => exact fun hs => ⟨hs.1, fun _ => hs.2.symm⟩
+    | panic => exact fun hs => hs.elim
+    | blocked => exact fun hs => hs.elim
   | canonAt rt s w => exact ⟨qsim _ _ (fun pr hw => goodFr_canonAtSlot pr hw rt s w), fun h => by cases h⟩
   | search x p s => exact ⟨qsim _ _ (fun pr hw => goodFr_search pr hw x p s), fun h => by cases h⟩
   | closest rt s =>
-    refine ⟨?_, fun h => by cases h⟩
-    show (match (finish (fc.closestToSlot rt s) _).1 with | .live fc' => Ref fc' a | _ => False)
+    have hc := closest_refines fc a I r rt s
+    show (match (finish (fc.closestToSlot rt s) _).1 with | .live fc' => Ref fc' a | _ => False) ∧
+      (_ → (finish (fc.closestToSlot rt s) Ans.ref).2 = a.closest rt s)
     unfold FC.closestToSlot
     rw [withLock_free fc hh]
+    revert hc
     cases PA.closestToSlot fc.pa rt s with
-    | none => simp only [finish]; rw [relock fc hh]; exact r
-    | some x => simp only [finish]; rw [relock fc hh]; exact r
+    | none => intro hc; simp only [finish]; rw [relock fc hh]; exact ⟨r, fun _ => hc.symm⟩
+    | some x => intro hc; simp only [finish]; rw [relock fc hh]; exact ⟨r, fun _ => hc.symm⟩
   | getSlot rt =>
     show (match (finish (fc.getSlot rt) _).1 with | .live fc' => Ref fc' a | _ => False) ∧
       (_ → (finish (fc.getSlot rt) Ans.slotOpt).2 = Ans.slotOpt (a.firstSlot rt))
